@@ -163,7 +163,8 @@ def run_mirsym_property(pid, tier, seed, harness_files, relevant_codes, outcome_
                     candidates.append((r["entry"], o, None, p))
                 for v in p.get("violations", []):
                     if v["code"] in relevant_codes:
-                        candidates.append((r["entry"], code_name(v["code"]), v["code"], dict(p, inputs=v.get("inputs") or p["inputs"], spans=v.get("spans"))))
+                        candidates.append((r["entry"], "heap-leak" if v.get("heap_leak") else code_name(v["code"]), v["code"],
+                                           dict(p, inputs=v.get("inputs") or p["inputs"], spans=v.get("spans"), heap_leak=v.get("heap_leak"))))
                     else:
                         other_codes[code_name(v["code"])] = other_codes.get(code_name(v["code"]), 0) + 1
             for s in r["samples"]:
@@ -197,7 +198,9 @@ def run_mirsym_property(pid, tier, seed, harness_files, relevant_codes, outcome_
                 unconfirmed.append((entry, kind, "no model"))
                 continue
             nat = run.native(entry, p["inputs"])
-            if code is not None:
+            if p.get("heap_leak"):
+                ok = (nat.get("live") or 0) > 0
+            elif code is not None:
                 ok = code in nat["violated"]
             elif kind == "memory-error":
                 ok = nat["outcome"] in ("abort", "signal11", "signal7", "signal4")
@@ -205,7 +208,7 @@ def run_mirsym_property(pid, tier, seed, harness_files, relevant_codes, outcome_
                 ok = nat["outcome"] == kind
             if ok and run.replay_bin_rel:
                 nat_rel = run.native(entry, p["inputs"], release=True)
-                rel_ok = (code in nat_rel["violated"]) if code is not None else (nat_rel["outcome"] == nat["outcome"])
+                rel_ok = ((nat_rel.get("live") or 0) > 0) if p.get("heap_leak") else ((code in nat_rel["violated"]) if code is not None else (nat_rel["outcome"] == nat["outcome"]))
             else:
                 rel_ok = None
             if not ok:
